@@ -94,6 +94,10 @@ def call_model(I, fn, args, kwargs):
             return mk_fd_apply(I, _native1(str), x)
         if isinstance(x, SymStr):
             return x
+        if isinstance(x, Sym):
+            # only used to build messages in this code base: opaque placeholder (listed as an assumption)
+            I.notes.add("str() of a symbolic number -> opaque placeholder (message text)")
+            return "<num>"
         raise Unsupported("str(%s)" % type(x).__name__)
     if fn is abs:
         (x,) = args
